@@ -7,7 +7,7 @@ def nontrivial(c):
     names = [o[1] for o in ops]
     # at least two different orders of a peer list were fed to started sharders, and an ownership
     # question (which / route / send) was asked afterwards
-    lists = {o[3] for o in ops if o[1] == "update" and len(o) > 3 and o[3] != "-"}
+    lists = {a for o in ops if o[1] in ("update", "reloadbusy", "reloadbusy2") for a in o[3:] if a != "-"}
     return "start" in names and len(lists) >= 2 and any(n in names for n in ("which", "route", "send"))
 
 
@@ -21,7 +21,8 @@ SPEC = dict(
     nontrivial=nontrivial,
     rule="cases = small in-process clusters (1-5 nodes, 1-20 peer addresses): real DeterministicSharders fed permuted / "
          "duplicated / changed / empty peer lists through peer.MockPeers, real incoming+peer Routers with recording collector "
-         "and transmissions; ops update/start/which/route/send/table; non-trivial = a started sharder, at least two distinct "
+         "and transmissions; ops update/start/which/route/send/table plus reloadbusy/reloadbusy2 (the list changes while a "
+         "WhichShard holds the read lock, optionally a second change right behind); non-trivial = a started sharder, at least two distinct "
          "orderings/lists fed, and a later ownership question (which on all nodes, route, or send followed hop by hop); "
          "distinct by transcript hash",
     trusted_base=["wyhash.Hash is a function of (bytes, seed) (its graph is supplied by the harness as ext lines; the theorems "
